@@ -402,7 +402,10 @@ fn check(prop: &str, tier: &str) -> i32 {
             rep.cov("reads_ok_after_failure", json!(st.reads_ok_after_failure));
             rep.cov("reads_err_after_failure", json!(st.reads_err_after_failure));
             rep.cov("samples", json!(st.samples));
-            rep.cov("exhaustive", json!(true));
+            rep.cov("exhaustive", json!(st.skipped_over_budget == 0));
+            if st.skipped_over_budget > 0 {
+                rep.cov("caps_hit", json!([format!("wall-clock budget: {} (call index, mode) cases not run", st.skipped_over_budget)]));
+            }
             rep.assumptions.push("one failure per run (a permanent failure models a dead device, a single failure a transient error); short reads/writes are not part of the StorageBackend trait".into());
             for (h, k, mode, msg) in &st.failures {
                 rep.violation(
@@ -534,6 +537,14 @@ fn check(prop: &str, tier: &str) -> i32 {
 fn main() {
     par::install_panic_hook();
     let args: Vec<String> = std::env::args().collect();
+    if args.get(1).map(|s| s.as_str()) == Some("check") {
+        if let Some(t) = args.get(3) {
+            // single-threaded at this point
+            unsafe { std::env::set_var("VERIF_TIER", t) };
+        }
+    }
+    let _ = par::remaining_budget_s();
+    let _ = par::over_budget();
     let code = match args.get(1).map(|s| s.as_str()) {
         Some("smoke") => smoke(),
         Some("sched-worker") => schedrun::worker_main(),
